@@ -66,6 +66,12 @@ type Obs struct {
 	SingleRA  int64   `json:"single_ra"`
 	Prim      *int64  `json:"prim"`
 	PrimRA    int64   `json:"prim_ra"`
+	ScanMaps   []Row  `json:"scan_maps"`
+	ScanMapsRA int64  `json:"scan_maps_ra"`
+	RowsMaps   []Row  `json:"rows_maps"`
+	FirstMap   *Row   `json:"first_map"`
+	LastMap    *Row   `json:"last_map"`
+	TakeMap    *Row   `json:"take_map"`
 	Errs      []string `json:"errs"`
 }
 
@@ -205,6 +211,45 @@ func run(db *gorm.DB, in Input) Obs {
 			o.Prim = &prim
 		}
 	}
+	// slice-of-maps destinations through Scan and Rows+ScanRows; single-record finders into a map
+	{
+		var ms []map[string]interface{}
+		r := chain(db, in).Model(&Item{}).Scan(&ms)
+		fail("scan_maps", r.Error)
+		o.ScanMapsRA = r.RowsAffected
+		o.ScanMaps = []Row{}
+		for _, m := range ms {
+			o.ScanMaps = append(o.ScanMaps, Row{asInt(m["id"]), asInt(m["v"])})
+		}
+		o.RowsMaps = []Row{}
+		rows, err := chain(db, in).Model(&Item{}).Rows()
+		fail("rows_maps", err)
+		if err == nil {
+			for rows.Next() {
+				var one []map[string]interface{}
+				fail("scanrows_maps", db.ScanRows(rows, &one))
+				for _, m := range one {
+					o.RowsMaps = append(o.RowsMaps, Row{asInt(m["id"]), asInt(m["v"])})
+				}
+			}
+			rows.Close()
+		}
+		singleMap := func(name string, f func(tx *gorm.DB, dst *map[string]interface{}) *gorm.DB) *Row {
+			m := map[string]interface{}{}
+			r := f(chain(db, in).Model(&Item{}), &m)
+			if errors.Is(r.Error, gorm.ErrRecordNotFound) {
+				return nil
+			}
+			fail(name, r.Error)
+			if r.Error == nil && r.RowsAffected != 1 {
+				o.Errs = append(o.Errs, fmt.Sprintf("%s: RowsAffected=%d", name, r.RowsAffected))
+			}
+			return &Row{asInt(m["id"]), asInt(m["v"])}
+		}
+		o.FirstMap = singleMap("first_map", func(tx *gorm.DB, d *map[string]interface{}) *gorm.DB { return tx.First(d) })
+		o.LastMap = singleMap("last_map", func(tx *gorm.DB, d *map[string]interface{}) *gorm.DB { return tx.Last(d) })
+		o.TakeMap = singleMap("take_map", func(tx *gorm.DB, d *map[string]interface{}) *gorm.DB { return tx.Take(d) })
+	}
 	// Pluck
 	o.PluckID, o.PluckV = []int64{}, []int64{}
 	fail("pluck_id", chain(db, in).Model(&Item{}).Pluck("id", &o.PluckID).Error)
@@ -302,6 +347,7 @@ func term(in Input, o Obs) string {
 		gORow(o.First), gORow(o.Last), gORow(o.Take),
 		lib.ListOf(o.Batches, gRows), lib.Z(o.BatchesRA),
 		gRows(o.Ptrs), gRows(o.Array), gORow(o.Single), lib.Z(o.SingleRA), gOZ(o.Prim), lib.Z(o.PrimRA),
+		gRows(o.ScanMaps), lib.Z(o.ScanMapsRA), gRows(o.RowsMaps), gORow(o.FirstMap), gORow(o.LastMap), gORow(o.TakeMap),
 		lib.Z(int64(len(o.Errs))))
 }
 
